@@ -46,8 +46,6 @@ class Combination(object):
         specifiers.set_signature_forger(self, self.get_signature,
                                         emulate=False)
 
-    __signature__ = specifiers.as_forged
-
     def __call__(self, arg, *args, **kwargs):
         for function in self.functions:
             arg = function(arg, *args, **kwargs)
